@@ -17,6 +17,13 @@ pub struct LinResult {
     pub witness: Vec<usize>,
 }
 
+/// Violations that decide whether an ordering is possible: everything except the recorded
+/// known finding of C02 about lifetimes begun with a client-derived CAS (a token reused there
+/// says nothing about the order in which the commands took effect).
+fn deciding(v: Vec<Violation>) -> Vec<Violation> {
+    v.into_iter().filter(|x| !(x.prop == "C02" && x.clause == "cas-reused-in-lifetime-begun-with-client-cas")).collect()
+}
+
 fn search(
     ops: &[TOp],
     done: &mut Vec<bool>,
@@ -34,7 +41,7 @@ fn search(
         for (req, resp) in finals {
             m.apply(req, resp.as_ref());
         }
-        let v = m.take_violations();
+        let v = deciding(m.take_violations());
         if v.is_empty() {
             return true;
         }
@@ -97,7 +104,7 @@ fn search(
         } else {
             m.apply(&ops[i].req, ops[i].resp.as_ref());
         }
-        let v = m.take_violations();
+        let v = deciding(m.take_violations());
         if !v.is_empty() {
             if order.len() + 1 > best.0 {
                 *best = (order.len() + 1, v);
